@@ -211,3 +211,55 @@ def c01_random(seed, n):
         feats["partial_cover"] = pc
         out.append((f"R{seed}-{j}", feats, model([src, tgt], nodes, es)))
     return out
+
+
+# --------------------------------------------------------------------------------------------- delays (C09, C11, C04)
+def delay_families(kind="discrete"):
+    """kind 'discrete': edges with delay (no spread); 'gamma': edges with delay and spread."""
+    out = []
+    pop = op_li("op", x="r", ins=("r_in",), tau=2.0, x0=0.4, in_defaults={"r_in": 0.0})
+    tgt = op_li("tg", x="v", ins=("u",), tau=1.0, x0=0.1, in_defaults={"u": 0.0})
+
+    def E(src, tgt_, w, d, s=None):
+        return edge(src, tgt_, w, d, s if kind == "gamma" else None)
+    two = {"p1": dict(ops=["op"]), "p2": dict(ops=["op"], over={"op/tau": 3.0})}
+    sp = 0.1 if kind == "gamma" else None
+    out.append(("D1-two-nodes-two-delays", dict(delays=[0.3, 0.5]),
+                model([pop], two, [E("p1/op/r", "p2/op/r_in", 1.5, 0.3, 0.15), E("p2/op/r", "p1/op/r_in", -0.5, 0.5, 0.2)])))
+    out.append(("D2-mixed-delayed-undelayed-different-sources", dict(mixed=True),
+                model([pop], dict(two, p3=dict(ops=["op"], over={"op/tau": 1.0})),
+                      [E("p1/op/r", "p2/op/r_in", 1.5, 0.3, 0.15), edge("p3/op/r", "p1/op/r_in", 0.7),
+                       E("p2/op/r", "p3/op/r_in", 0.9, 0.4, 0.2)])))
+    out.append(("D3-shared-source-different-delays", dict(shared_source=True),
+                model([pop, tgt], dict(two, t1=dict(ops=["tg"]), t2=dict(ops=["tg"], over={"tg/tau": 2.0})),
+                      [E("p1/op/r", "t1/tg/u", 1.0, 0.2, 0.1), E("p1/op/r", "t2/tg/u", 2.0, 0.5, 0.1), edge("p2/op/r", "p1/op/r_in", 0.3)])))
+    out.append(("D4-shared-target-different-delays", dict(shared_target=True),
+                model([pop, tgt], dict(two, t1=dict(ops=["tg"])),
+                      [E("p1/op/r", "t1/tg/u", 1.0, 0.2, 0.1), E("p2/op/r", "t1/tg/u", 2.0, 0.4, 0.2)])))
+    out.append(("D5-undelayed-edge-sharing-source-with-delayed", dict(undelayed_shares_source=True),
+                model([pop, tgt], dict(two, t1=dict(ops=["tg"]), t2=dict(ops=["tg"], over={"tg/tau": 2.0})),
+                      [E("p1/op/r", "t1/tg/u", 1.0, 0.3, 0.15), edge("p1/op/r", "t2/tg/u", 2.0), edge("p2/op/r", "p1/op/r_in", 0.3)])))
+    if kind == "discrete":
+        # one source, a long delay registered first and a one-step delay last; lags < 2 steps are outside the property,
+        # so only the variables that do not depend on the short edge are compared
+        out.append(("D8-long-delay-then-one-step-delay-same-source", dict(only_vars=["p1/op/r", "p2/op/r", "t1/tg/v"]),
+                    model([pop, tgt], dict(two, t1=dict(ops=["tg"]), t2=dict(ops=["tg"], over={"tg/tau": 2.0})),
+                          [edge("p1/op/r", "t1/tg/u", 1.0, 0.3), edge("p1/op/r", "t2/tg/u", 2.0, 0.1), edge("p2/op/r", "p1/op/r_in", 0.3, 0.4)])))
+    nn_ = 4
+    nodes_ = {f"n{i}": dict(ops=["op"], over={"op/tau": 1.0 + 0.5 * i}) for i in range(nn_)}
+    es_ = [E(f"n{(i + 1) % nn_}/op/r", f"n{i}/op/r_in", 0.5 + 0.25 * i, 0.2 + 0.1 * (i % 2), 0.1) for i in range(nn_)]
+    out.append(("D6-ring-4-two-delay-values", dict(population=4), model([pop], nodes_, es_)))
+    es2 = [E(f"n{(3 * i + 1) % nn_}/op/r", f"n{i}/op/r_in", 0.5 + 0.25 * i, 0.3, 0.1) for i in range(nn_)]
+    out.append(("D7-permuted-uniform-delay", dict(population=4, uniform=True), model([pop], nodes_, es2)))
+    if kind == "gamma":
+        out.append(("G1-same-order-different-rate", dict(),
+                    model([pop, tgt], dict(two, t1=dict(ops=["tg"]), t2=dict(ops=["tg"], over={"tg/tau": 2.0}), t3=dict(ops=["tg"], over={"tg/tau": 0.5})),
+                          [edge("p1/op/r", "t1/tg/u", 1.0, 0.2, 0.1), edge("p1/op/r", "t2/tg/u", 1.0, 0.2, 0.1),
+                           edge("p1/op/r", "t3/tg/u", 2.0, 0.3, 0.15), edge("p2/op/r", "p1/op/r_in", 0.3)])))
+        out.append(("G2-same-delay-different-spread", dict(),
+                    model([pop, tgt], dict(two, t1=dict(ops=["tg"]), t2=dict(ops=["tg"], over={"tg/tau": 2.0})),
+                          [edge("p1/op/r", "t1/tg/u", 1.0, 0.4, 0.4), edge("p1/op/r", "t2/tg/u", 1.0, 0.4, 0.1)])))
+        out.append(("G3-rounding-orders", dict(),
+                    model([pop, tgt], dict(two, t1=dict(ops=["tg"]), t2=dict(ops=["tg"], over={"tg/tau": 2.0})),
+                          [edge("p1/op/r", "t1/tg/u", 1.0, 0.5, 0.3), edge("p2/op/r", "t2/tg/u", 1.0, 0.3, 0.1)])))
+    return out
